@@ -314,6 +314,22 @@ func checkDependencyPanics(c *Ctx, rule string, ri *reachInfo) {
 			}
 			why, ok := reaches[callee]
 			if !ok {
+				// the dependency function handed on as a value to a function of the module that calls it
+				for _, a := range call.Common().Args {
+					if ct, isCT := a.(*ssa.ChangeType); isCT {
+						a = ct.X
+					}
+					g, isFn := a.(*ssa.Function)
+					if !isFn {
+						continue
+					}
+					if why2, hit := reaches[g]; hit && strings.HasPrefix(fnPkgPath(callee), modPath) {
+						sites++
+						c.Check(rule, "a panic of "+qualifiedFuncName(g)+" cannot leave "+shortFn(f)+" as a crash", call.Pos(), hasRecover(f) || hasRecover(callee),
+							"the dependency function can panic ("+why2+"); it is handed to "+shortFn(callee)+" as a value, and neither that function nor the caller has a deferred recover",
+							"grammar x; start = start | \"a\";  (a conflict between accepting the input and a reduction)")
+					}
+				}
 				return
 			}
 			sites++
